@@ -2,6 +2,7 @@ package checks
 
 import (
 	"fmt"
+	"math"
 	"sync/atomic"
 
 	at "github.com/DanielSvub/anytype"
@@ -347,7 +348,53 @@ func runC07(c *ev.Ctx) {
 	}
 	editPhase(e, neighNodes, 3, "single-edit neighbours (near-miss leaves)")
 	editPhase(spec.NewEnum([]*spec.V{spec.I(1), spec.S("a")}, []string{"a", "b"}), deepNodes, 4, "single-edit neighbours (deep trees)")
+	c07ScalarSquare(c)
 	if c.Expired() {
 		c.Cut("deadline reached")
 	}
+}
+
+// c07ScalarSquare: every ordered pair over a scalar alphabet of near-misses (neighbouring ints that collapse when
+// converted to float64, int/float pairs of equal value, strings differing in case / a NUL / normalisation form),
+// each pair embedded at 5 places. Expected: Equal exactly when kind and value coincide.
+func c07ScalarSquare(c *ev.Ctx) {
+	p53 := 1 << 53
+	vals := []interface{}{nil, true, false,
+		0, 1, -1, p53, p53 + 1, -p53, -p53 - 1, math.MaxInt, math.MaxInt - 1, math.MinInt, math.MinInt + 1,
+		0.0, 1.0, -1.0, float64(p53), float64(p53) + 2, math.Ldexp(1, 63), -math.Ldexp(1, 63), 5e-324, 0.1 + 0.2, 0.3, math.Inf(1), math.Inf(-1), math.MaxFloat64,
+		"", "0", "1", "a", "A", "a\x00", "a ", string(rune(0xE9)), "e" + string(rune(0x301)), "true", "null"}
+	embed := []struct {
+		name string
+		mk   func(v interface{}) at.List
+	}{
+		{"[v]", func(v interface{}) at.List { return at.NewList(v) }},
+		{"[0,v]", func(v interface{}) at.List { return at.NewList(0, v) }},
+		{"[v,\"z\"]", func(v interface{}) at.List { return at.NewList(v, "z") }},
+		{"[[v]]", func(v interface{}) at.List { return at.NewList(at.NewList(v)) }},
+		{"[{k:v}]", func(v interface{}) at.List { return at.NewList(at.NewObject("k", v)) }},
+	}
+	for i, x := range vals {
+		for j, y := range vals {
+			want := i == j || sameVal(x, y)
+			for _, em := range embed {
+				a, b := em.mk(x), em.mk(y)
+				c.Eval(1)
+				c.Nontrivial(fmt.Sprintf("scalar-square/%d/%d/%s", i, j, em.name))
+				var got bool
+				pn, pv := try(func() { got = a.Equals(b) })
+				if pn || got != want {
+					x, y, em := x, y, em
+					c.Violate(ev.Violation{Sig: "equals/scalar-square", Msg: fmt.Sprintf("%s with v=%T(%v) Equals the same with v=%T(%v): got %v (panic %v %v), want %v", em.name, x, x, y, y, got, pn, pv, want),
+						Witness: map[string]string{"shape": em.name, "left": fmt.Sprintf("%T(%v)", x, x), "right": fmt.Sprintf("%T(%v)", y, y)}}, func() string {
+						g := false
+						if p, _ := try(func() { g = em.mk(x).Equals(em.mk(y)) }); p || g != want {
+							return "equals/scalar-square"
+						}
+						return ""
+					})
+				}
+			}
+		}
+	}
+	c.Set("scalar_square", map[string]interface{}{"values": len(vals), "embeddings": len(embed), "note": "0.0 and -0.0 are not both in the alphabet (the statement does not say whether they are the same value)"})
 }
